@@ -119,12 +119,13 @@ fn one_run(a: &Args, seed: u64, round: u64, t: &mut Trace, stats: &mut Value) ->
     let mut evs: Vec<(u64, Ev)> = std::mem::take(&mut *log.lock().unwrap());
     evs.sort_by_key(|e| e.0);
     let (mut calls, mut errors, mut sessions) = (0u64, 0u64, 0u64);
+    let mut distinct: std::collections::HashSet<String> = Default::default();
     for (_, e) in evs {
         calls += 1;
         match e {
-            Ev::Auto(st, o) => { if !o.is_ok() { errors += 1; } emit_auto(t, &st, &o, &mut next_tx); }
+            Ev::Auto(st, o) => { if !o.is_ok() { errors += 1; } distinct.insert(st.sql()); emit_auto(t, &st, &o, &mut next_tx); }
             Ev::Begin(s, o) => { sessions += 1; t.ev(json!({"ev": "begin", "s": s, "tx": next_tx, "out": o.json()})); next_tx += 1; }
-            Ev::Stmt(s, st, o) => { if !o.is_ok() { errors += 1; } t.ev(json!({"ev": "stmt", "s": s, "sql": st.sql(), "q": st.json(), "out": out_json(&o)})); }
+            Ev::Stmt(s, st, o) => { if !o.is_ok() { errors += 1; } distinct.insert(st.sql()); t.ev(json!({"ev": "stmt", "s": s, "sql": st.sql(), "q": st.json(), "out": out_json(&o)})); }
             Ev::Commit(s, o) => { if !o.is_ok() { errors += 1; } t.ev(json!({"ev": "commit", "s": s, "out": o.json()})); }
             Ev::Rollback(s, o) => { t.ev(json!({"ev": "rollback", "s": s, "out": o.json()})); }
         }
@@ -141,6 +142,7 @@ fn one_run(a: &Args, seed: u64, round: u64, t: &mut Trace, stats: &mut Value) ->
     stats["errors"] = json!(stats["errors"].as_u64().unwrap_or(0) + errors);
     stats["sessions"] = json!(stats["sessions"].as_u64().unwrap_or(0) + sessions);
     stats["clients"] = json!(stats["clients"].as_u64().unwrap_or(0) + (writers + readers) as u64);
+    stats["distinct_statements"] = json!(stats["distinct_statements"].as_u64().unwrap_or(0) + distinct.len() as u64);
     false
 }
 
